@@ -291,6 +291,12 @@ func only(n Node, pos ...string) Node {
 	return n
 }
 
+// textOf is element-less output of the names: ID({{ a }},{{ b == lit ? 'Y' : 'N' }},…).
+func textOf(id string, sc sscope, d Data, names []string, salt int, choose func(int) int) Node {
+	n := only(probeOf(id, sc, d, names, salt, choose), "text", "tern")
+	return Node{Text: n.Probe}
+}
+
 func sampleOK(c vals.V) bool { _, ok := firstNonNil(c); return ok }
 
 func uniq(names []string) []string {
@@ -445,24 +451,30 @@ func core1(full bool, yield func(Case) bool) {
 						vifs = append(vifs, "index", "index-none")
 					}
 					type combo struct {
-						els int // -1 absent, else index into elseSeps
-						vif string
-						tag string
+						els  int // -1 absent, else index into elseSeps
+						vif  string
+						tag  string
+						text bool // the loop body is text only (no element): t1({{ v }},…)
 					}
 					var combos []combo
 					if full {
 						for e := -1; e < len(elseSeps); e++ {
 							for _, vif := range vifs {
 								for _, tag := range []string{"div", "template"} {
-									combos = append(combos, combo{e, vif, tag})
+									combos = append(combos, combo{e, vif, tag, false})
 								}
+								// <template v-for> whose instances add no element at all
+								combos = append(combos, combo{e, vif, "template", true})
 							}
 						}
 					} else {
 						for _, e := range []int{-1, 0, 1 + rot%(len(elseSeps)-1)} {
 							for _, vif := range []string{"", vifs[1+rot%(len(vifs)-1)]} {
 								rot++
-								combos = append(combos, combo{e, vif, []string{"div", "template"}[rot/2%2]})
+								// element, <template> with elements, <template> with a text-only body; shifted by
+								// one per block of six so that every shape meets every v-else variant
+								shape := (rot/2 + rot/6) % 3
+								combos = append(combos, combo{e, vif, []string{"div", "template", "template"}[shape], shape == 2})
 							}
 						}
 					}
@@ -505,6 +517,9 @@ func core1(full bool, yield func(Case) bool) {
 						names := append([]string{vn, idx}, rs.shadow...)
 						names = append(names, rs.idxName)
 						l.Body = []Node{probeRich("p1", inner, d, names, i, nil, vn)}
+						if cb.text {
+							l.Body = []Node{textOf("t1", inner, d, names, i, nil)}
+						}
 						if cb.els >= 0 {
 							l.Else = &Else{ID: "E1", Sep: elseSeps[cb.els], Body: []Node{only(probeOf("p2", outer, d, []string{vn, idx}, i, nil), "text", "tern")}}
 						}
@@ -873,7 +888,10 @@ func (g *gen) loop(sc sscope, depth int, outerVars []string) []Node {
 	// names: before the nested loop they must still mean what they mean here, afterwards again
 	var nested []Node
 	var nestedNames []string
-	if depth < 3 && l.Fill == nil {
+	// a quarter of the loops have a body of text alone (for <template v-for>: instances without
+	// any element); half of those still contain nested loops
+	textOnly := l.Fill == nil && g.int(0, 3, "textonly") == 0
+	if depth < 3 && l.Fill == nil && !(textOnly && g.int(0, 1, "textleaf") == 0) {
 		for k := g.int(0, 2, "nnested"); k > 0; k-- {
 			inVars := uniq(append(append([]string{}, outerVars...), l.Var, l.Idx))
 			ns := g.loop(inner, depth+1, inVars)
@@ -884,11 +902,18 @@ func (g *gen) loop(sc sscope, depth int, outerVars []string) []Node {
 	all := append(append([]string{}, names...), nestedNames...)
 	if l.Fill == nil {
 		l.Body = []Node{probeRich(g.id("p"), inner, g.d, all, g.int(0, 19, "salt"), g.chooser(), l.Var)}
+		if textOnly {
+			l.Body = []Node{textOf(g.id("t"), inner, g.d, all, g.int(0, 19, "salt"), g.chooser())}
+		}
 	}
 	if len(nested) > 0 {
 		l.Body = append(l.Body, nested...)
 		// the loop's own bindings again, after the nested loops
-		l.Body = append(l.Body, probeRich(g.id("p"), inner, g.d, all, g.int(0, 19, "salt"), g.chooser(), g.pick(uniq([]string{l.Var, l.Idx}), "rich")))
+		if textOnly {
+			l.Body = append(l.Body, textOf(g.id("t"), inner, g.d, all, g.int(0, 19, "salt"), g.chooser()))
+		} else {
+			l.Body = append(l.Body, probeRich(g.id("p"), inner, g.d, all, g.int(0, 19, "salt"), g.chooser(), g.pick(uniq([]string{l.Var, l.Idx}), "rich")))
+		}
 	}
 	if g.int(0, 1, "else") == 1 {
 		l.Else = &Else{ID: g.id("E"), Sep: g.pick(elseSeps, "sep")}
@@ -1035,6 +1060,8 @@ func classify(c Case) (bool, []string) {
 
 func countReads(n Node, cls map[string]bool) {
 	switch {
+	case n.Text != nil:
+		cls["text-node"] = true
 	case n.Probe != nil:
 		for _, r := range n.Probe.Reads {
 			cls["read:"+r.Pos] = true
